@@ -448,6 +448,12 @@ class Batch:
                         nxt.add(frozenset(self.rk[key]["f"]))
             frontier = nxt
 
+    def _rk_groups(self):
+        groups = {}
+        for (e, ck, fs), out in sorted(self.rk.items(), key=lambda kv: (kv[0][0], kv[0][1], sorted(kv[0][2]))):
+            groups.setdefault((e, ck), []).append({"in": sorted(fs), "out": out})
+        return [{"e": e, "ck": ck, "rows": rows} for (e, ck), rows in groups.items()]
+
     def record(self, stats):
         return {
             "id": self.id,
@@ -456,7 +462,7 @@ class Batch:
             "stats": bool(stats),
             "engines": self.engines,
             "prefs": self.prefs,
-            "rk": [{"e": e, "ck": ck, "in": sorted(fs), "out": out} for (e, ck, fs), out in sorted(self.rk.items(), key=lambda kv: (kv[0][0], kv[0][1], sorted(kv[0][2])))],
+            "rk": self._rk_groups(),
             "reqs": [{k: v for k, v in r.items() if k != "ing"} for r in self.reqs],
         }
 
